@@ -50,6 +50,10 @@ def run(db, rep, tier):
                                "(x[k+1], x[k]), and from the TKIP header IV16 = (octet 0, octet 2), Lo16(IV32) = (octet 5, octet 4), "
                                "Hi16(IV32) = (octet 7, octet 6)", 3)
     r10(db, rep)
+    rep.rule("R11-normalised-keys", "every key under which WPA2Decrypter stores or looks up session keys is a normalised address pair (made by "
+                                    "make_addr_pair, directly or through the extract_addr_pair functions): a key stored as given can never be "
+                                    "found by the look-ups, which all normalise", 3)
+    r11(db, rep)
     rep.explanation = ("Also decides the step table of RSNHandshakeCapturer::do_insert (R4: append iff next expected, keep state on a "
                        "retransmission of the last stored message). Decides two clauses of C09: 'frames whose integrity check fails are never reported as decrypted' "
                        "(guard dominance on every non-null return) and 'decrypting truncated/corrupted/hostile protected "
@@ -615,6 +619,61 @@ def r8(db, rep):
             rep.ok("R8-ds-address-table", key, facts.loc(f, top), "%s selected per 802.11 for (0,0), (0,1), (1,0)" % "/".join(roles))
 
 
+def r11(db, rep):
+    REC = "Tins::Crypto::WPA2Decrypter"
+    # normalisers: make_addr_pair, and functions that return nothing but the result of a normaliser
+    norm = set(h["id"] for h in db.functions.values() if h.get("name", "").split("::")[-1] == "make_addr_pair")
+    if not norm:
+        rep.analysis_broken("make_addr_pair vanished")
+        return
+    for _ in range(3):
+        for h in db.functions.values():
+            if h["id"] in norm or not h.get("body") or h.get("rec") != REC:
+                continue
+            rets = [x for x in facts.fn_nodes(h) if x["k"] == "ReturnStmt" and x.get("c")]
+            if rets and all(any(y["k"] in ("CallExpr", "CXXMemberCallExpr") and y.get("callee") in norm for y in facts.walk(r_["c"][0]))
+                            for r_ in rets) and "addr_pair" in ((facts.tyi(h, h.get("ret")) or {}).get("s") or "") + h["id"]:
+                norm.add(h["id"])
+    n = 0
+    for f in sorted(db.functions.values(), key=lambda x: x["id"]):
+        if f.get("rec") != REC or not f.get("body"):
+            continue
+        sa = facts.single_assign(f)
+        for x in facts.fn_nodes(f):
+            keye = None
+            if x["k"] == "CXXOperatorCallExpr" and x.get("op") == "[]" and len(x["c"]) == 3 and \
+                    facts.strip_all(x["c"][1]).get("member") == "keys_":
+                keye, how = x["c"][2], "keys_[...]"
+            elif x["k"] == "CXXMemberCallExpr" and x.get("cname") in ("find", "count", "erase", "at", "insert", "emplace") and len(x["c"]) >= 2:
+                me = facts.strip_all(x["c"][0])
+                obj = facts.strip_all(me["c"][0]) if me.get("c") else None
+                if obj is not None and obj.get("member") == "keys_":
+                    keye, how = x["c"][1], "keys_.%s(...)" % x["cname"]
+            if keye is None:
+                continue
+            n += 1
+            key = "%s:%s#%d" % (f["qual"].split("::")[-1], how, n)
+
+            def normalised(e, depth=0):
+                if any(y["k"] in ("CallExpr", "CXXMemberCallExpr") and y.get("callee") in norm for y in facts.walk(e)):
+                    return True
+                e0 = facts.strip_all(e)
+                while e0["k"] in ("CXXConstructExpr", "MaterializeTemporaryExpr", "CXXBindTemporaryExpr") and len(e0.get("c", [])) == 1:
+                    e0 = facts.strip_all(e0["c"][0])
+                if e0["k"] == "DeclRefExpr" and e0.get("var") in sa and not e0.get("parm") and depth < 3:
+                    return normalised(sa[e0["var"]], depth + 1)
+                return False
+            if normalised(keye):
+                rep.ok("R11-normalised-keys", key, facts.loc(f, x), "key made by make_addr_pair")
+            else:
+                rep.violation("R11-normalised-keys", key, facts.loc(f, x),
+                              "%s uses `%s` as the key as it was given; the look-ups of decrypt() normalise the pair (smaller address first), "
+                              "so keys supplied with the addresses the other way round are stored where no look-up finds them and the frames "
+                              "are never decrypted" % (how, facts.expr_str(keye)[:50]))
+    if n < 3:
+        rep.analysis_broken("only %d keyed accesses of WPA2Decrypter::keys_ found" % n)
+
+
 def r10(db, rep):
     """RC4Key::from_packet: the operands of every join_bytes(hi, lo) whose two arguments are octets of one array.  The TKIP
     header (802.11-2012 11.4.2.1.2): octet 0 = TSC1, 1 = WEPSeed, 2 = TSC0, 3 = key id, 4..7 = TSC2..TSC5, so
@@ -701,6 +760,22 @@ def r10(db, rep):
                           "mixing function uses" % (base, ia, base, ib))
     if n < 3:
         rep.analysis_broken("only %d word loads found in RC4Key::from_packet (IV16 and the two halves of IV32 expected at least)" % n)
+    # the address mixed into phase 1 is the TRANSMITTER address (802.11: TA = Address 2 in every To-DS / From-DS combination)
+    for v in facts.fn_nodes(f):
+        if v["k"] == "VarDecl" and v.get("c") and "HWAddress" in ((facts.tyi(f, v.get("t")) or {}).get("s") or ""):
+            used = any(c["k"] == "CallExpr" and c.get("cname") == "join_bytes" and
+                       any(x["k"] == "DeclRefExpr" and x.get("var") == v["var"] for x in facts.walk(c)) for c in facts.fn_nodes(f))
+            if not used:
+                continue
+            getters = [x.get("cname") for x in facts.walk(v["c"][0]) if x["k"] == "CXXMemberCallExpr" and
+                       (x.get("cname") or "").startswith(("addr", "src_addr", "dst_addr", "bssid"))]
+            key = "from_packet:transmitter-address"
+            if getters == ["addr2"]:
+                rep.ok("R10-tkip-words", key, facts.loc(f, v), "phase 1 mixes addr2() (TA)")
+            elif getters:
+                rep.violation("R10-tkip-words", key, facts.loc(f, v),
+                              "phase 1 mixes %s(), not the transmitter address addr2(): for frames relayed by the access point (From-DS with "
+                              "a source other than the BSSID) the two differ and the frame is not decrypted" % getters[0])
 
 
 def r9(db, rep):
